@@ -121,6 +121,13 @@ class Shape(str, Enum):
 class CodeGenerator(abc.ABC):
     variable_prefix = ""
 
+    # Names that the generated functions use for themselves (arguments, the
+    # result array, helper variables). Subclasses add the keywords and library
+    # names of their language.
+    reserved_names: frozenset[str] = frozenset(
+        {"t", "time", "dt", "states", "parameters", "values", "shape", "missing_variables"}
+    )
+
     def __init__(
         self,
         ode: ODE,
@@ -131,12 +138,38 @@ class CodeGenerator(abc.ABC):
         self.remove_unused = remove_unused
         self._missing_variables = ode.missing_variables
         self._shape = shape
+        self._check_names()
 
         if remove_unused:
             self.deps = self.ode.dependents()
             self._condition = lambda x: x in self.deps
         else:
             self._condition = lambda x: True
+
+    def _check_names(self) -> None:
+        """Refuse models whose identifiers would capture, or be captured by,
+        a name the generated code uses for itself."""
+        from .. import exceptions
+
+        names = {
+            atom.name
+            for atom in (
+                self.ode.states
+                + self.ode.parameters
+                + self.ode.intermediates
+                + self.ode.state_derivatives
+            )
+        } | set(self._missing_variables)
+        helpers = {f"{d.name}_linearized" for d in self.ode.state_derivatives}
+        clashes = sorted(n for n in names if n in self.reserved_names or n in helpers or self._is_reserved(n))
+        if clashes:
+            raise exceptions.GotranxError(
+                f"The names {clashes} are used by the generated code itself. "
+                "Please rename them in the model."
+            )
+
+    def _is_reserved(self, name: str) -> bool:
+        return False
 
     def _formatter(self, code: str) -> str:
         """Alternative formatter that takes a code snippet
